@@ -243,7 +243,15 @@ def run_cbtf(sh, params):
         if save is not None and not c["noq"]:
             a3 = r.standard_normal(c["nb"])
             try:
+                before = [np.array(getattr(tf, nm), copy=True)
+                          for nm in ("a", "v", "d", "frc")]
                 t1 = cb.cbtf(m, b, k, a3, freq, bset, save)
+                # a solution handed out earlier must not change when the cached solver
+                # is used again (work arrays kept in `save` would alias it)
+                sh.check_equal("cbtf-save-earlier-result-unmutated",
+                               all(np.asarray(getattr(tf, nm)).tobytes() == x.tobytes()
+                                   for nm, x in zip(("a", "v", "d", "frc"), before)),
+                               True, case, tags)
                 t2 = cb.cbtf(m, b, k, a3, freq, bset)
                 ok = "tf" in save
                 sh.check_equal("cbtf-save-has-tf", ok, True, case, tags)
